@@ -7,6 +7,9 @@ NARY = ['AND', 'OR', 'XOR', 'NAND', 'NOR', 'NXOR']
 UNARY = ['NOT', 'IFF']
 BINARY = ['GEQ', 'GT', 'LEQ', 'LT', 'LIFF', 'LNOT', 'RIFF', 'RNOT']
 CONST = ['ALWAYS_TRUE', 'ALWAYS_FALSE']
+# INPUT gates that carry operands are accepted by add_gate but are degenerate (see DESIGN 6.4 D24);
+# the regular generators do not produce them
+INPUT_WITH_OPERANDS = False
 BENCH_TYPES = ['NOT', 'AND', 'OR', 'NAND', 'NOR', 'XOR', 'NXOR', 'IFF']
 
 
@@ -100,6 +103,82 @@ def random_circuit(rng, n_inputs=None, n_gates=None, types=None, labels_prefix=N
             bouts = rng.sample(gs, rng.randint(0, len(gs)))
             blocks.append(('B%d' % b, bins, gs, bouts))
     return {'inputs': ins, 'outputs': outs, 'gates': gates, 'users': ulist, 'blocks': blocks}
+
+
+TINY_TYPES = ['NOT', 'AND', 'XOR', 'GT', 'LIFF', 'ALWAYS_TRUE']
+
+
+def tiny_netlists(max_inputs=2, max_gates=2, types=None):
+    """EXHAUSTIVE enumeration of all netlists with <= max_inputs inputs and <= max_gates gates over
+    a reduced type set (binary arity for n-ary types, operands chosen with repetition among all
+    earlier labels), every gate an output candidate: outputs = [last gate] (and, when it is not
+    the last gate, the first input, so that outputs that are inputs occur)"""
+    import itertools
+    types = types or TINY_TYPES
+
+    def arity(t):
+        return {'NOT': 1, 'ALWAYS_TRUE': 0, 'ALWAYS_FALSE': 0, 'IFF': 1}.get(t, 2)
+
+    for n in range(max_inputs + 1):
+        inputs = [f'i{k}' for k in range(n)]
+        for g in range(max_gates + 1):
+            def rec(k, avail, gates):
+                if k == g:
+                    yield list(gates)
+                    return
+                for t in types:
+                    a = arity(t)
+                    if a > 0 and not avail:
+                        continue
+                    for ops in itertools.product(avail, repeat=a):
+                        l = f'g{k}'
+                        yield from rec(k + 1, avail + [l], gates + [(l, t, list(ops))])
+            for gates in rec(0, list(inputs), []):
+                order = [(i, 'INPUT', []) for i in inputs] + gates
+                if not order:
+                    continue
+                users = {}
+                for l, t, ops in order:
+                    for o in ops:
+                        users.setdefault(o, []).append(l)
+                outs = [order[-1][0]] + ([inputs[0]] if inputs and gates else [])
+                yield {'inputs': list(inputs), 'outputs': outs, 'gates': order, 'users': list(users.items()),
+                       'blocks': []}
+
+
+def malformed_variant(rng, dump):
+    """a netlist the library's own mutators would not build (acyclic, so evaluators terminate):
+    dangling operand, wrong arity, INPUT gate missing from the input list, non-INPUT label in the
+    input list, dangling output"""
+    d = {k: [list(x) if isinstance(x, tuple) else x for x in v] if isinstance(v, list) else v for k, v in dump.items()}
+    d['gates'] = [(k, t, list(o)) for k, t, o in dump['gates']]
+    d['inputs'], d['outputs'] = list(dump['inputs']), list(dump['outputs'])
+    kind = rng.choice(['dangling', 'arity', 'input_missing', 'input_extra', 'dangling_output'])
+    non_in = [i for i, g in enumerate(d['gates']) if g[1] != 'INPUT']
+    if kind == 'dangling' and non_in:
+        i = rng.choice(non_in)
+        k, t, o = d['gates'][i]
+        if o:
+            o = list(o)
+            o[rng.randrange(len(o))] = 'ghost'
+            d['gates'][i] = (k, t, o)
+    elif kind == 'arity' and non_in:
+        i = rng.choice(non_in)
+        k, t, o = d['gates'][i]
+        extra = [rng.choice(d['inputs'])] if d['inputs'] else []      # an input: cannot close a cycle
+        d['gates'][i] = (k, t, list(o)[:-1] if o and rng.random() < 0.5 else list(o) + extra)
+    elif kind == 'input_missing' and d['inputs']:
+        d['inputs'].pop(rng.randrange(len(d['inputs'])))
+    elif kind == 'input_extra' and non_in:
+        d['inputs'].append(d['gates'][rng.choice(non_in)][0])
+    elif kind == 'dangling_output':
+        d['outputs'].append('ghost')
+    users = {}
+    for l, t, ops in d['gates']:
+        for o in ops:
+            users.setdefault(o, []).append(l)
+    d['users'] = list(users.items())
+    return d
 
 
 # ------------------------------------------------------------------ operations
@@ -277,7 +356,9 @@ def choose_op(rng, c, uuid_counter, p_invalid=0.15, allow=None):
     if k == 'emplace':
         g = random_gate(rng, labels)
         if g is None or rng.random() < 0.15:
-            return ('emplace', labels[0] if (invalid and labels) else ghost(), 'INPUT', [])
+            # an INPUT gate may legally carry (ignored) operands
+            iops = [rng.choice(labels)] if labels and INPUT_WITH_OPERANDS and rng.random() < 0.1 else []
+            return ('emplace', labels[0] if (invalid and labels) else ghost(), 'INPUT', iops)
         t, ops = g
         if invalid and rng.random() < 0.5:
             ops = ops + [ghost()]
@@ -413,7 +494,9 @@ def connect_op(rng, c, k, invalid):
     right = rng.random() < 0.5
     if k == 'extend':
         tc = oc = None
-        if rng.random() < 0.4:
+        if rng.random() < 0.2:
+            tc, oc = [], []          # explicit empty connector lists: side-by-side composition
+        elif rng.random() < 0.4:
             tc = ([rng.choice(labels) for _ in range(len(other['inputs']))] if not right
                   else rng.sample(list(c._inputs), min(len(c._inputs), len(other['outputs'])))) if labels else []
         return ('extend', other, tc, oc, right, name, ap)
@@ -452,7 +535,8 @@ def replace_subcircuit_op(rng, c, uuid_counter, invalid):
         return ('replace_subcircuit', sub, [], [], fresh)
     imap = list(zip(ins, sub['inputs']))
     omap = [(o, rng.choice(sub_non_in)) for o in outs]
-    if rng.random() < 0.3 and imap:
+    sub_labels = {g[0] for g in sub['gates']}
+    if rng.random() < 0.3 and imap and not any(a in sub_labels for a, _ in imap):
         # keep some labels unchanged
         i = rng.randrange(len(imap))
         old, new = imap[i]
